@@ -76,9 +76,11 @@ static const Hand HAND[] = {
     {"xchg eax, r9d", 0},
     {"xchg ax, dx", 0},
     {"xchg rax, r11", 0},
-    {"mov rax, 0x10000000000000000", 0},
-    {"mov rcx, 99999999999999999999", 0},
-    {"lea rax, [rbx+0x10000000000000000]", 0},
+    {"mov rax, 0x10000000000000000", CF_EITHER},
+    {"mov rcx, 99999999999999999999", CF_EITHER},
+    {"lea rax, [rbx+0x10000000000000000]", CF_EITHER},
+    {"add rcx, 0x100000000000000000000", CF_EITHER},
+    {"mov rdx, -99999999999999999999999", CF_EITHER},
     // option-sensitive probes of the documentation
     {"lea r15, [rax+rsp]", CF_OPTSENS},
     {"lea r15, [2*rax]", CF_OPTSENS},
@@ -209,6 +211,7 @@ bool corpus_init(std::string *why) {
       if (e.ok != e0.ok || e.len != e0.len || memcmp(e.bytes, e0.bytes, e.len)) sens = true;
     }
     bool admit;
+    if ((c.flags & CF_EITHER) && !crashed && all_rej) c.flags = CF_REJECT;  // this tree rejects it: use it as a rejected line
     if (crashed)
       admit = false;
     else if (c.flags & CF_FILLER)
